@@ -44,7 +44,7 @@ def pname(p):
     return "%s%s%s" % ("b" if t == B else "", k.lower(), "" if n is None else str(n))
 
 def evb_obligation(mode, prefix, final, cb=0, final_max=8, extra_defs=(), ndebug=False, timeout=600, mem_gb=5,
-                   name_prefix="", wit_failpath=False, expect_fail=None, known_finding=None, desc_extra=""):
+                   name_prefix="", wit_failpath=False, expect_fail=None, known_finding=None, desc_extra="", solver=None):
     """prefix: list of (target, KIND, size); final: (target, KIND)"""
     defs = ["LIBEVENT_VERIF_MIN_BUFFER_SIZE=64", "VP_OBJ=%d" % VP_OBJ, "VP_MODE=%d" % mode, "VP_CB=%d" % cb, "VP_FINAL_MAX=%d" % final_max]
     total = 0
@@ -71,27 +71,139 @@ def evb_obligation(mode, prefix, final, cb=0, final_max=8, extra_defs=(), ndebug
               unwindset=evb_unwindset(copy, rec),
               cbmc=["--max-field-sensitivity-array-size", str(VP_OBJ), "--object-bits", "10", "--slice-formula"],
               timeout=timeout, mem_gb=mem_gb, ndebug=ndebug)
+    if solver is None and (nm in KISSAT_NAMES or any(k == "MCAST" for _, k, _ in prefix)):
+        solver = "kissat"      # minisat2 occasionally needs > 900 s on these small instances (measured), kissat 5-60 s
+    if solver: ob["solver"] = solver
     if expect_fail: ob["expect_fail"] = expect_fail
     if known_finding: ob["known_finding"] = known_finding
     return ob
 
+KISSAT_NAMES = {"add15__copyout"}
 # loops: library chain walks get the global bound CHAIN_UNWIND (<= 6 chains + slack); byte loops of the harness, the
 # reference model and the copy models are named explicitly (ids that do not exist in a configuration are ignored by cbmc
 # with a warning; unwinding assertions are always on, so a missing or too small bound is reported, never silently cut).
 CHAIN_UNWIND = 8
 MODEL_LOOPS = (["vpb_init.0", "vpb_copy.0", "vpb_equal.0", "vpb_append.0", "vpb_prepend.0", "vpb_prepend.1", "vpb_drain.0", "vpb_copyout.0",
                 "vpb_search.0", "vpb_search.1", "vpb_eol.0", "vpb_eol.1", "vp_compare.0", "vp_compare_all.0", "vp_evb_flatten.0", "vp_evb_flatten.1",
-                "vp_bytes.0"] + ["harness_evbuffer.%d" % i for i in range(6)] +
+                "vp_bytes.0"] + ["harness_evbuffer.%d" % i for i in range(6)] + ["vp_finish.%d" % i for i in range(5)] +
                ["op_%s.%d" % (f, i) for f in ("remove", "copyout", "pullup", "reserve_commit", "readln", "peek", "search", "search_eol", "add_iovec") for i in range(4)])
 COPY_LOOPS = ["vp_memcpy.0", "vp_memmove.0", "vp_memmove.1", "vp_memchr.0", "vp_memcmp.0", "find_eol_char.0",
               "evbuffer_strspn.0", "evbuffer_strspn.1", "evbuffer_strspn.2", "evbuffer_strchr.0", "evbuffer_find_eol_char.0"]
+HARNESS_CHAIN_LOOPS = ["vp_evb_check.0", "vp_evb_nchains.0", "vp_evb_byte.0", "vp_evb_count_flag.0", "vp_run_deferred.0",
+                       "event_deferred_cb_schedule_.0", "event_deferred_cb_cancel_.0"]      # own concrete counters (<= 6 chains / 3 slots)
 def evb_unwindset(copy, rec=1):
-    return (["evbuffer_chain_free:%d" % rec, "evbuffer_decref_and_unlock_:%d" % rec, "evbuffer_file_segment_free:1"] +
+    return (["%s:8" % l for l in HARNESS_CHAIN_LOOPS] +["evbuffer_chain_free:%d" % rec, "evbuffer_decref_and_unlock_:%d" % rec, "evbuffer_file_segment_free:1"] +
             ["%s:%d" % (l, 130) for l in MODEL_LOOPS] + ["%s:%d" % (l, copy) for l in COPY_LOOPS])
 
-G1 = ["ADD", "PREPEND", "DRAIN", "REMOVE", "COPYOUT", "COPYOUT_FROM", "PULLUP", "EXPAND", "RESERVE_COMMIT", "REF"]
+# ---------------------------------------------------------------------------------------------------------------
+# enumeration of prefixes x final operations
+ADDERS = ["ADD", "PREPEND", "REF", "EXPAND", "RESERVE_COMMIT", "RESERVE_COMMIT2", "ADD_IOVEC"]      # primary argument: size added
+TAKERS = ["DRAIN", "REMOVE", "COPYOUT", "COPYOUT_FROM", "PULLUP", "PTR_SET", "PEEK"]              # primary: length / position
+FINALS_1 = ADDERS + TAKERS
+FINALS_2 = ["ADDBUF", "PREPENDBUF", "REMOVEBUF", "ADDBUFREF"]                                     # A <- B
+ADD_SPLIT = 18          # adders: every size 0..18 (crosses the 16-byte chain capacity from any fill level)
+
+def stored(prefix, t=None):
+    return sum((n or 0) for tt, k, n in prefix if k in ("ADD", "PREPEND", "REF", "MCAST") and (t is None or tt == t))
+
+def split_bound(prefix, final):
+    ft, fk = final
+    if fk == "ADD_IOVEC": return 4 * 13 - 1                      # len0 0..12 x len1 0..3 (n = 4*len0 + len1)
+    if fk in ADDERS: return ADD_SPLIT
+    if fk == "REMOVEBUF": return stored(prefix, 1 - ft) + 1      # bytes in the source buffer + 1 ("more than stored")
+    if fk in TAKERS: return stored(prefix) + 1
+    return None                                                  # no size argument (add_buffer & co): nothing to split
+
+def evb_split(mode, prefix, final, **kw):
+    """case-split encoding of the final step (see harness: VP_SPLIT); identical claim, sizes 0..bound"""
+    b = split_bound(prefix, final)
+    extra = list(kw.pop("extra_defs", []))
+    if b is not None:
+        extra.append("VP_SPLIT=%d" % b)
+        kw.setdefault("desc_extra", "")
+        kw["desc_extra"] += "; size/position argument 0..%d case-split, other arguments and all bytes symbolic" % b
+    kw.setdefault("final_max", ADD_SPLIT if final[1] in ADDERS else 8)
+    if effect_reachable(prefix, final): extra.append("VP_WIT_EFFECT")
+    return evb_obligation(mode, prefix, final, extra_defs=extra, **kw)
+
+def effect_reachable(prefix, final):
+    """can the final step succeed with a visible effect?  (then the harness demands the 'took effect' witness)"""
+    ft, fk = final
+    fz_s = {A: False, B: False}; fz_e = {A: False, B: False}
+    for t, k, n in prefix:
+        if k == "FREEZE_S": fz_s[t] = True
+        if k == "FREEZE_E": fz_e[t] = True
+        if k == "UNFREEZE_S": fz_s[t] = False
+        if k == "UNFREEZE_E": fz_e[t] = False
+    # bytes still stored (drains/pullups in the prefix make an exact count awkward: be conservative -> no witness demanded)
+    drained = any(k in ("DRAIN", "REMOVE", "REMOVEBUF", "ADDBUF", "PREPENDBUF", "READLN") for t, k, n in prefix)
+    have = lambda t: stored(prefix, t) > 0 and not (drained and stored(prefix, t) <= sum((n or 0) for tt, k, n in prefix if k in ("DRAIN", "REMOVE")))
+    if fk in ("PREPEND",): return not fz_s[ft]
+    if fk in ADDERS: return not fz_e[ft]
+    if fk in ("PTR_SET", "PEEK"): return True
+    if fk in TAKERS: return have(ft) and not fz_s[ft]
+    if fk in ("ADDBUF", "REMOVEBUF"): return have(1 - ft) and not fz_e[ft] and not fz_s[1 - ft]
+    if fk == "PREPENDBUF": return have(1 - ft) and not fz_s[ft] and not fz_s[1 - ft]
+    if fk == "ADDBUFREF": return have(1 - ft) and not fz_e[ft] and not any(k == "MCAST" and t == 1 - ft for t, k, n in prefix)
+    return fk == "NONE"
+
+# states named in DESIGN C12: partially filled / misaligned / full + empty trailing / immutable first, last /
+# two and three chains / reserved space / frozen
+PREFIX_1 = [[], [(A, "ADD", 3)], [(A, "ADD", 15)], [(A, "ADD", 16)], [(A, "ADD", 17)], [(A, "PREPEND", 3)], [(A, "REF", 3)],
+            [(A, "MCAST", 3)], [(A, "EXPAND", 8)]]
+PREFIX_2 = [[(A, "ADD", 15), (A, "DRAIN", 4)], [(A, "ADD", 16), (A, "ADD", 3)], [(A, "ADD", 16), (A, "EXPAND", 8)],
+            [(A, "ADD", 3), (A, "REF", 2)], [(A, "REF", 2), (A, "ADD", 3)], [(A, "MCAST", 3), (A, "ADD", 5)], [(A, "ADD", 3), (A, "MCAST", 3)],
+            [(A, "ADD", 17), (A, "ADD", 17)], [(A, "ADD", 16), (A, "DRAIN", 16)], [(A, "ADD", 16), (A, "DRAIN", 15)],
+            [(A, "PREPEND", 3), (A, "ADD", 15)], [(A, "ADD", 1), (A, "PREPEND", 17)], [(A, "REF", 3), (A, "REF", 2)],
+            [(A, "REF", 3), (A, "DRAIN", 1)], [(A, "MCAST", 3), (A, "DRAIN", 1)], [(A, "ADD", 3), (A, "RESERVE_ONLY", 20)],
+            [(A, "ADD", 17), (A, "PULLUP", 17)], [(A, "ADD", 3), (A, "FREEZE_S", 0)], [(A, "ADD", 3), (A, "FREEZE_E", 0)],
+            [(A, "ADD", 15), (A, "PREPEND", 3)], [(A, "EXPAND", 8), (A, "REF", 2)]]
+PREFIX_3 = [[(A, "REF", 1), (A, "REF", 2), (A, "ADD", 3)], [(A, "ADD", 16), (A, "ADD", 3), (A, "REF", 2)],
+            [(A, "ADD", 16), (A, "ADD", 3), (A, "DRAIN", 17)], [(A, "ADD", 15), (A, "ADD", 3), (A, "DRAIN", 2)]]
+# two-buffer finals: state of A x state of B
+PA_Q = [[], [(A, "ADD", 3)], [(A, "ADD", 16)], [(A, "EXPAND", 8)]]
+PB_Q = [[(B, "ADD", 3)], [(B, "ADD", 17)], [(B, "REF", 2)], [(B, "ADD", 16), (B, "ADD", 3)]]
+PA_T = PA_Q + [[(A, "REF", 3)], [(A, "ADD", 15), (A, "DRAIN", 4)], [(A, "MCAST", 3)], [(A, "ADD", 3), (A, "FREEZE_E", 0)]]
+PB_T = PB_Q + [[], [(B, "MCAST", 3)], [(B, "ADD", 15), (B, "DRAIN", 4)], [(B, "ADD", 3), (B, "FREEZE_S", 0)]]
+
+# scenario: two destinations share one source chain (DESIGN C12 cand. defect: pullup writes into the IMMUTABLE shared chain)
+SHARED = [(A, "MCAST", 3), (B, "MCAST", 0), (A, "ADD", 5), (B, "ADD", 5), (A, "PULLUP", 8)]
+
+def timeouts(fk, tier):
+    heavy = fk in ("RESERVE_COMMIT", "RESERVE_COMMIT2", "PULLUP", "ADD_IOVEC", "REMOVE", "PREPEND")
+    return dict(timeout=900 if tier == "quick" else 1500, mem_gb=4 if heavy else 3)
+
+def gen(mode, tier, cb=0, finals1=FINALS_1, finals2=FINALS_2, name_prefix="", **kw):
+    obs = []
+    p_single = PREFIX_1 + (PREFIX_2 + PREFIX_3 if tier == "thorough" else [])
+    for pre in p_single:
+        for fk in finals1:
+            if tier == "quick" and fk == "ADD_IOVEC" and pre not in ([], [(A, "ADD", 15)], [(A, "REF", 3)]): continue
+            if pre not in PREFIX_1 and fk in ("ADD_IOVEC", "PEEK", "PTR_SET", "COPYOUT"): continue
+            obs.append(evb_split(mode, pre, (A, fk), cb=cb, name_prefix=name_prefix, **dict(timeouts(fk, tier), **kw)))
+    pa, pb = (PA_T, PB_T) if tier == "thorough" else (PA_Q, PB_Q)
+    for x in pa:
+        for y in pb:
+            for fk in finals2:
+                obs.append(evb_split(mode, x + y, (A, fk), cb=cb, name_prefix=name_prefix, **dict(timeouts(fk, tier), **kw)))
+    return obs
 
 def obligations(tier):
-    obs = []
-    obs.append(evb_obligation(12, [(A, "ADD", 15), (A, "DRAIN", 4)], (A, "ADD")))
+    obs = gen(12, tier)
+    # the fully symbolic form of the recipe (size <= 8, no case split) on the core operations
+    sym_prefixes = [[(A, "ADD", 15), (A, "DRAIN", 4)], [(A, "ADD", 16), (A, "ADD", 3)]] + ([[(A, "ADD", 3), (A, "REF", 2)]] if tier == "thorough" else [])
+    for pre in sym_prefixes:
+        for fk in ["ADD", "PREPEND", "DRAIN", "REMOVE", "PULLUP", "COPYOUT_FROM"]:
+            obs.append(evb_obligation(12, pre, (A, fk), name_prefix="sym_", timeout=900, mem_gb=6, desc_extra="; fully symbolic step, size <= 8"))
+    # shared-source scenario (two add_buffer_reference destinations)
+    for fk in ["PULLUP", "ADD", "DRAIN", "PREPEND"]:
+        obs.append(evb_split(12, SHARED, (B, fk), name_prefix="shared_", solver="kissat", timeout=900, mem_gb=6))
+    # releasing everything after a concrete prefix: allocator balanced, references cleaned once
+    for pre in PREFIX_1 + PREFIX_2[:8] + [SHARED]:
+        obs.append(evb_obligation(12, pre, (A, "NONE"), name_prefix="free_", extra_defs=["VP_LEAK=2"], timeout=600, mem_gb=4,
+                                  desc_extra="; no final step: evbuffer_free of every buffer, allocator balance"))
+    if tier == "thorough":
+        for pre in [[(A, "ADD", 15), (A, "DRAIN", 4)], [(A, "ADD", 16), (A, "ADD", 3)], [(A, "ADD", 3), (A, "REF", 2)]]:
+            for fk in [f for f in FINALS_1 if f not in ("ADD_IOVEC", "PEEK", "PTR_SET", "COPYOUT")]:
+                obs.append(evb_split(12, pre, (A, fk), ndebug=True, **timeouts(fk, tier)))
     return obs
